@@ -44,6 +44,28 @@ CHECKS = {
         design='DESIGN.md 1/C04'),
 }
 
+CHECKS['C07'] = dict(
+    text='DECIDABLE PART ONLY. With the external optimisation routines replaced by a stub that returns an arbitrary '
+         'symbolic x*, for all 9 algorithm names, renamings and fixed/free patterns and ALL numeric inputs z3 shows: bounds '
+         'and starting values handed over belong to the sorted names; the objective is -LL/-grad/-Hessian; reported '
+         'final/initial likelihood, gradient, Hessian, BHHH are those of the model at x*/start; estimates are paired with '
+         'names; formulas start at the estimates afterwards, fixed parameters untouched; each algorithm gets the options '
+         'of its configuration section.',
+    note='NOT claimed (iterative floating-point algorithms in biogeme_optimization/scipy, not encodable): estimates '
+         'respect bounds, final >= initial likelihood, stationarity, agreement of algorithms. Stubs: optimisation '
+         'routines, bioResults._calculate_stats (C08), engine, numpy shim.',
+    design='DESIGN.md 1/C07')
+CHECKS['C15'] = dict(
+    text='For evaluation histories of length 3 (finite or non-finite gradient, improving or not), every file-system '
+         'operation as crash point of one evaluation (with/without an earlier file), restart and bootstrap scenarios, '
+         'names with spaces and "=", and ALL parameter points, z3 shows that the iteration file is absent or complete, '
+         'holds the best finite-derivative evaluation so far, that the library restart code loads exactly that point by '
+         'name and that a later estimation starts from it.',
+    note='Trusted: POSIX file semantics of verif/memfs.py (truncate at open, ordered durable writes, atomic replace), '
+         'isfinite oracle, optimiser stub, engine contract. Outside: histories longer than 3, bit-exact float text '
+         'formatting (values travel through the file as tokens).',
+    design='DESIGN.md 1/C15')
+
 NOT_APPLICABLE = {}
 
 
